@@ -13,7 +13,8 @@ from ..tutil import no_uids
 from ..flow import Flow
 from ..paths import path_variants
 from ..tutil import (bound_args, concat_parts, mapped_over, np_call,
-                     positional, seq_elems, term_strings, literal_parts)
+                     positional, seq_elems, term_strings, literal_parts,
+                     merge_fstr, expand_const_comp)
 
 EXPLANATION = (
     "Static analysis of confidence.assign_confidence / "
@@ -343,6 +344,23 @@ def _rollup_levels(ctx, f):
 
     loops = [n for n in ast.walk(f.node) if isinstance(n, ast.For)
              and row_source(n)]
+    if not loops:
+        # the streaming loop may live in a helper of this function
+        prog = ctx.prog
+        for q in sorted(prog.reachable([f.qual])):
+            g = prog.funcs.get(q)
+            if g is None or g is f or isinstance(g.node, ast.Lambda) or \
+                    g.module is not f.module:
+                continue
+            gT = Terms(DefUse(prog, g))
+            for n in ast.walk(g.node):
+                if isinstance(n, ast.For):
+                    t = gT.of(n.iter)
+                    if t[0] == "call" and t[1] == "builtins.enumerate" \
+                            and t[2]:
+                        t = t[2][0]
+                    if t[0] == "mcall" and t[2] == "get_row_iterator":
+                        return _rollup_levels(ctx, g)
     ctx.require(len(loops) == 1, f"{f.qual}: row loop not found")
     rl = loops[0]
     apps = [n for n in ast.walk(rl) if isinstance(n, ast.Call)
@@ -383,10 +401,17 @@ def _rollup_levels(ctx, f):
         lv = ("elem", T.of(ll.iter))
         want = (addk_t, add_t, False)       # key not in seen-set
         new_only = cw == [want]
-        ok = (ca == [want] and new_only
-              and add_t[0] == "sub" and add_t[2] == lv
-              and w_t[0] == "sub" and w_t[2] == lv
-              and any(x == lv for x in walk_term(addk_t)))
+        # the level token: seen[level] with level from the loop, or the
+        # value of seen.items() whose key is the level
+        if add_t[0] == "sub":
+            tok, per_level = add_t[2], add_t[2] == lv
+        elif add_t[0] == "value":
+            tok, per_level = ("key", add_t[1]), True
+        else:
+            tok, per_level = None, False
+        ok = (ca == [want] and new_only and per_level
+              and w_t[0] == "sub" and w_t[2] == tok
+              and any(x == tok for x in walk_term(addk_t)))
         why = (f"records {show(addk_t, 60)} in {show(add_t, 60)} under "
                f"{[show(c, 80) for c in ca]}; writes to {show(w_t, 60)} "
                f"under {[show(c, 80) for c in cw]}")
@@ -860,7 +885,7 @@ def _target_decoy_routing(ctx):
         src = mapped_over(prog, ps[0]) if ps else None
         names = None
         if src is not None and src[0] == "sub":
-            dct = src[1]
+            dct = expand_const_comp(src[1])
             if dct[0] == "comp" and dct[1] == "dict" and \
                     dct[2][0] == "tuple" and dct[2][1][1][0] == "list":
                 elts = dct[2][1][1][1]
@@ -917,7 +942,7 @@ def _target_decoy_routing(ctx):
             rd = b.get("reader")
             if rd is not None and any(x == ("elem", files)
                                       for x in walk_term(rd)):
-                pats = [x for x in term_strings(files)
+                pats = [x for x in term_strings(merge_fstr(files))
                         if ".targets." in x or ".decoys." in x]
                 ent["pattern"] = sorted(set(
                     "targets" if ".targets." in x else "decoys"
@@ -931,17 +956,10 @@ def _target_decoy_routing(ctx):
               "rows read from *.targets.* files are flagged is_decoy=False, "
               "rows from *.decoys.* files True",
               f"computed columns: {flags}", node=mr[0])
-    globs = {}
-    for n in ast.walk(r.node):
-        if isinstance(n, (ast.Assign, ast.AnnAssign)) and n.value is not \
-                None and "glob(" in ast.unparse(n.value):
-            tgt = n.targets[0] if isinstance(n, ast.Assign) else n.target
-            globs[ast.unparse(tgt)] = ast.unparse(n.value)
-    ok_g = ".targets." in globs.get("target_files", "") and \
-        ".decoys." in globs.get("decoy_files", "")
+    ok_g = len(flags) == 2 and all(e["pattern"] for e in flags)
     ctx.check(ok_g, "C03d-rollup-input-patterns", r,
-              "target_files/decoy_files are globbed from *.targets.* / "
-              "*.decoys.*", f"{globs}", node=r.node)
+              "the files behind the readers are globbed from *.targets.* / "
+              "*.decoys.* patterns", f"{flags}", node=r.node)
 
 
 # ------------------------------------------------------------------ e
